@@ -2,6 +2,8 @@
 // depends on uninitialised memory; new_*/delete_* pairs release everything.
 // Monitors: ASan+UBSan on exactly-sized guard-banded buffers (asan build), canaries, differential
 // pre-fill of outputs and scratch, memcheck definedness (mode "memcheck"), LeakSanitizer (mode "leaks").
+#include <valgrind/memcheck.h>
+
 #include "ops.h"
 
 #if VP_ASAN
@@ -87,8 +89,51 @@ static void lifecycle_case(uint64_t N, unsigned rep) {
   case_end(1);
 }
 
+// the buffers a table hands out (num_buffers >= 1) are part of the object the library sized: every byte of every buffer
+// must lie inside the allocation. Checked explicitly (ASan: shadow query; memcheck: addressability client request), for
+// many tables separated by spacer blocks of varying sizes so that the allocator returns them at every address residue.
+static void builtin_buffers_case(uint64_t m, unsigned rep) {
+  if (!case_begin("fft/ifft tables|extent of the built-in buffers", "m=%" PRIu64 " rep=%u", m, rep)) return;
+  rng_t* r = crng();
+  void* spacers[64];
+  int ns = 0;
+  uint64_t checked = 0;
+  for (int it = 0; it < 24; it++) {
+    if (ns < 64) spacers[ns++] = malloc(8 + 8 * (rng_u64(r) % 13));  // shifts the next block by a multiple of 16 bytes
+    const int kind = it & 3;
+    const uint32_t nb = 1 + (uint32_t)(rng_u64(r) % 3);
+    void* t = kind == 0 ? (void*)new_reim_fft_precomp((uint32_t)m, nb) : kind == 1 ? (void*)new_reim_ifft_precomp((uint32_t)m, nb) : kind == 2 ? (void*)new_cplx_fft_precomp((uint32_t)m, nb) : (void*)new_cplx_ifft_precomp((uint32_t)m, nb);
+    for (uint32_t b = 0; b < nb; b++) {
+      uint8_t* buf = kind == 0 ? (uint8_t*)reim_fft_precomp_get_buffer(t, b) : kind == 1 ? (uint8_t*)reim_ifft_precomp_get_buffer(t, b) : kind == 2 ? (uint8_t*)cplx_fft_precomp_get_buffer(t, b) : (uint8_t*)cplx_ifft_precomp_get_buffer(t, b);
+      const size_t len = 2 * m * 8;
+      const void* bad = 0;
+#if VP_ASAN
+      bad = __asan_region_is_poisoned(buf, len);
+#else
+      if (G.valgrind) bad = (const void*)(uintptr_t)VALGRIND_CHECK_MEM_IS_ADDRESSABLE(buf, len);
+#endif
+      if (bad) {
+        viol("extent", "%s table (m=%" PRIu64 ", %u buffers, object at address = %u mod 64): byte %ld of built-in buffer %u lies outside the allocation", kind == 0 ? "reim fft" : kind == 1 ? "reim ifft" : kind == 2 ? "cplx fft" : "cplx ifft", m, nb, (unsigned)((uintptr_t)t & 63), (long)((const uint8_t*)bad - buf), b);
+        it = 1000;
+        break;
+      }
+      memset(buf, 0x5A, len);
+      checked += len;
+    }
+    distinct_add("table_address_residues_mod_64", ((uintptr_t)t & 63) + 1);
+    free(t);
+  }
+  for (int i = 0; i < ns; i++) free(spacers[i]);
+  cnt("builtin_buffer_bytes_checked", checked);
+  sample("24 tables with 1..3 built-in buffers each, every buffer byte inside its allocation");
+  case_end(1);
+}
+
 void run_C11(void) {
   const int th = G.thorough;
+  if (strcmp(G.mode, "leaks"))
+    for (uint64_t m = 1; m <= (!strcmp(G.mode, "memcheck") ? 256u : 4096u); m <<= 1)
+      for (unsigned rep = 0; rep < (th ? 6u : 2u); rep++) builtin_buffers_case(m, rep);
   if (!strcmp(G.mode, "memcheck")) {
     // small dimensions only: memcheck costs 30-50x; it is the tool that sees inside the assembly kernels
     static const uint64_t Ns[] = {2, 4, 8, 16, 32, 64};
